@@ -53,6 +53,9 @@ class Expr:
                 continue
             if isinstance(pe, dict):
                 if 'f' in pe:
+                    if e[0] == 'agg' and e[1] == 'tuple' and pe['f'] < len(e[2]):
+                        e = e[2][pe['f']]  # field of a freshly built tuple: the operand itself
+                        continue
                     e = ('field', e, pe['name'], pe.get('on', ''))
                 elif 'dc' in pe:
                     e = ('field', e, 'as:' + pe['dc'], '')
